@@ -288,8 +288,9 @@ proof fn lemma_parse_attrs(l: Seq<(Seq<char>, Val)>, fuel: nat)
     } else {
         let k = l[0].0; let v = l[0].1;
         let rest = l.skip(1);
-        assert(key_ok(l[0].0) && val_ok(l[0].1));
-        assert forall|i: int| 0 <= i < rest.len() implies key_ok(#[trigger] rest[i].0) && val_ok(rest[i].1) by { assert(rest[i] == l[i + 1]); }
+        lemma_attrs_ok_skip(l);
+        assert(attrs_ok(rest));
+        assert(fuel - 1 >= rest.len());
         let more = joined(rest);
         let tail = if l.len() == 1 { Seq::<char>::empty() } else { seq![';'] + more };
         let s = joined(l);
